@@ -261,6 +261,15 @@ class RepeatedValueWrapper(MutableSequence[_V], Generic[_M, _V]):
         raw_index = self._raw_indexes[index]
         return self._from_raw_type(self._raw_wrapper.pop(raw_index))
 
+    def reverse(self) -> None:
+        # The inherited implementation swaps through __setitem__, which cannot take a node that is still in the list
+        # (it failed half way with the values it could swap already swapped). Take the shown items out, last one first,
+        # and put them back at the same places in that order.
+        raw_indexes = list(self._raw_indexes)
+        items = [self._raw_wrapper.pop(i) for i in reversed(raw_indexes)]
+        for i, item in zip(raw_indexes, items):
+            self._raw_wrapper.insert(i, item)
+
     def remove(self, value: _V) -> None:
         for raw_index in self._raw_indexes:
             if self._from_raw_type(self._raw_wrapper[raw_index]) == value:
